@@ -1149,6 +1149,7 @@ ADVANCE_TO_APP_DATA:
 #  ifdef USE_SHA256
             case SHA256_HASH_SIZE:
                 psSha256PreInit(&md.u.sha256);
+                psSha256Init(&md.u.sha256);
                 break;
 #  endif
 #  ifdef USE_SHA384
